@@ -139,6 +139,13 @@ var bvCounter int
 
 func (w *World) trSpec(e *SExpr, env *SpecEnv) *Val {
 	switch e.Kind {
+	case "str":
+		// a Go string literal: the same constant the executor uses for program literals
+		name := "str_" + fmt.Sprintf("%x", e.Name)
+		if e.Name == "" {
+			name = "str_empty"
+		}
+		return tv(cnst(name, w.Reg.unint("Str")), types.Typ[types.String])
 	case "num":
 		if strings.ContainsAny(e.Name, ".") {
 			return &Val{T: realLit(e.Name), Lit: true, Mag: -1}
